@@ -206,9 +206,11 @@ type tlitCase struct {
 	T    TShape   `json:"type"`
 	Self string   `json:"self"`
 	Pre  []string `json:"pre,omitempty"` // packages the target file imported before (clashing names already bound)
-	out  string
-	imps string
-	have bool
+	// a type rendered through the same writer just before: what a file renders first must not leak into what it renders next
+	Before *TShape `json:"before,omitempty"`
+	out    string
+	imps   string
+	have   bool
 }
 
 func (c *tlitCase) render(t types.Type) (text string, imports map[string]string, panicked bool) {
@@ -224,8 +226,49 @@ func (c *tlitCase) render(t types.Type) (text string, imports map[string]string,
 		nm.Name(refOf(p, "Pre"))
 	}
 	w := gengo.NewSnippetWriter(b, namer.NameSystems{"raw": nm})
+	if c.Before != nil {
+		w.Render(snippet.ID(c.Before.toTypes(newTypeEnv())))
+		b.Reset()
+	}
 	w.Render(snippet.ID(t))
 	return b.String(), tr.Imports(), false
+}
+
+// twinBelowPointer: the same type with one thing changed below a pointer (another basic type, another named type) —
+// a different type that a lossy description of types (one that does not look below pointers) cannot tell from t
+func twinBelowPointer(t TShape) (TShape, bool) {
+	if t.K == "ptr" && len(t.Args) == 1 {
+		c := t.Args[0]
+		switch c.K {
+		case "basic":
+			n := t
+			other := "int"
+			if c.Name == "int" {
+				other = "string"
+			}
+			n.Args = []TShape{{K: "basic", Name: other}}
+			return n, true
+		case "named":
+			if len(c.Args) == 0 {
+				n := t
+				other := "Item"
+				if c.Name == "Item" {
+					other = "Obj"
+				}
+				n.Args = []TShape{{K: "named", Path: c.Path, Name: other}}
+				return n, true
+			}
+		}
+	}
+	for i, a := range t.Args {
+		if tw, ok := twinBelowPointer(a); ok {
+			n := t
+			n.Args = append([]TShape{}, t.Args...)
+			n.Args[i] = tw
+			return n, true
+		}
+	}
+	return t, false
 }
 
 func (c *tlitCase) Run() string {
@@ -797,9 +840,15 @@ func init() {
 				if r.Chance(25) {
 					c.Pre = []string{Pick(r, []string{"ex/c/util", "other.io/v1", "my/time", "x/api/core/v1"})}
 				}
+				if r.Chance(30) {
+					// the same writer has just rendered a type that differs from this one only below a pointer
+					if tw, ok := twinBelowPointer(c.T); ok {
+						c.Before = &tw
+					}
+				}
 				return c
 			},
-			Rule: "random closed type expressions (depth ≤ 4) built with the go/types constructors over basics, error, any, named types of seven packages (two pairs with clashing last segments, time, versioned paths), generic instantiations with basic / named / nested-generic arguments, pointers, slices, arrays, maps, channels, structs with tags (dots, commas, brackets, percent signs and printf verbs, @names, escaped quotes and backslashes, non-ASCII) and embedded fields, rendered with snippet.ID through a real writer into three target packages, some of which already bound clashing names; compared with the model byte for byte; oracle: the text type-checks in the target package with the registered imports to the same fully qualified type",
+			Rule: "random closed type expressions (depth ≤ 4) built with the go/types constructors over basics, error, any, named types of seven packages (two pairs with clashing last segments, time, versioned paths), generic instantiations with basic / named / nested-generic arguments, pointers, slices, arrays, maps, channels, structs with tags (dots, commas, brackets, percent signs and printf verbs, @names, escaped quotes and backslashes, non-ASCII) and embedded fields, rendered with snippet.ID through a real writer into three target packages, some of which already bound clashing names, and some of which have just rendered, through the same writer, a type that differs from this one only below a pointer; compared with the model byte for byte; oracle: the text type-checks in the target package with the registered imports to the same fully qualified type",
 		},
 		{
 			Name: "types-enum", New: func() Case { return &tlitCase{} },
